@@ -445,10 +445,77 @@ let vhmit_inst (c : case) : VhmItDefs.state inst =
     step = (fun st t _ -> stp st (Step (nat_of_int t)));
     pctag = simple_pctag (fun st -> st.th); nm }
 
+(* ---------------------------------------------------------------- ramalhete_queue (GC reclaimer, elem=ptr) *)
+let ram_inst (c : case) : RamDefs.state inst =
+  let open RamDefs in
+  let e = n_of_int (int_of_string (cfg_get c "epn" "2")) in
+  let r0 = int_of_string (cfg_get c "retries" "0") in
+  (* the harness instantiates pop_retries as: epn=1 -> 0|2, epn=2 -> 0|1, epn=3 -> 1, epn=11 -> 0, else 0|2 *)
+  let r = n_of_int (match int_of_string (cfg_get c "epn" "2") with
+    | 1 -> if r0 = 0 then 0 else 2 | 2 -> if r0 = 0 then 0 else 1 | 3 -> 1 | 11 -> 0 | _ -> if r0 = 0 then 0 else 2) in
+  let nm = {
+    named = (fun _ -> "?");
+    opname = (function 0 -> "push" | 1 -> "pop" | _ -> "?");
+    resname = (fun r -> match List.map int_of_n r with [1] -> "ok" | [1; _] -> string_of_n (List.nth r 1) | [0] -> "empty" | _ -> "?");
+    note = (fun code args -> match code, args with 120, [h] -> Some ("RETIRE h" ^ string_of_n h ^ "+0") | _ -> None);
+  } in
+  { init = RamDefs.init;
+    idle = (fun st t -> match st.th (nat_of_int t) with Idle -> true | _ -> false);
+    start = (fun st t (name, args) ->
+      let o = match name, args with "push", [v] -> OPush (n_of_string v) | _ -> OPop in
+      match RamDefs.step e r st (Start (nat_of_int t, o)) with Some (s', _) -> Some s' | None -> None);
+    step = (fun st t _ -> RamDefs.step e r st (Step (nat_of_int t)));
+    pctag = simple_pctag (fun st -> st.th);
+    nm }
+
+(* ---------------------------------------------------------------- kirsch_bounded_kfifo_queue (C06) *)
+(* the n-th call of utils::random() gets the n-th recorded choice (model draw counter g_nch), 0 when exhausted - as ReplaySched::choice *)
+let kfb_inst (c : case) : KfbDefs.state inst =
+  let open KfbDefs in
+  let k = n_of_int (int_of_string (cfg_get c "k" "2")) and segs = n_of_int (int_of_string (cfg_get c "segs" "2")) in
+  let choice st = match List.nth_opt c.choices (int_of_n st.g_nch) with Some x -> n_of_int x | None -> n_of_int 0 in
+  let nm = {
+    named = (fun _ -> "?");
+    opname = (function 0 -> "push" | 1 -> "pop" | _ -> "?");
+    resname = (fun r -> match List.map int_of_n r with [1] -> "ok" | [0] -> "full" | [2] -> "empty" | [1; _] -> string_of_n (List.nth r 1) | _ -> "?");
+    note = (fun code args -> match code, args with 130, [c; n] -> Some ("CHOICE " ^ string_of_n c ^ " " ^ string_of_n n) | _ -> None);
+  } in
+  { init = KfbDefs.init;
+    idle = (fun st t -> match st.th (nat_of_int t) with Idle -> true | _ -> false);
+    start = (fun st t (name, args) ->
+      let o = match name, args with "push", [v] -> OPush (n_of_string v) | _ -> OPop in
+      match KfbDefs.step k segs st (Start (nat_of_int t, o)) with Some (s', _) -> Some s' | None -> None);
+    step = (fun st t _ -> KfbDefs.step k segs st (Step (nat_of_int t, choice st)));
+    pctag = simple_pctag (fun st -> st.th);
+    nm }
+
+(* ---------------------------------------------------------------- quiescent_state_based reclaimer with the generic client (C01/C02) *)
+let qsbr_inst (c : case) : QsbrDefs.state inst =
+  let open QsbrDefs in
+  let ncells = n_of_int (int_of_string (cfg_get c "cells" "2")) in
+  let nslots = nat_of_int (int_of_string (cfg_get c "slots" "3")) in
+  (* cfg toff=1: the (wrong) orphan target global_epoch + 1; the code has number_epochs - 1 = 2 *)
+  let toff = n_of_int (int_of_string (cfg_get c "toff" "2")) in
+  let nm = {
+    named = (fun i -> if i = 0 then "tbl_head" else if i = 1 then "global_epoch" else if i = 2 then "abandoned" else "cell" ^ string_of_int (i - 10));
+    opname = (function 0 -> "repl" | 1 -> "clear" | 2 -> "read" | 3 -> "hold" | 4 -> "drop" | 5 -> "deref" | 6 -> "enter" | 7 -> "leave" | _ -> "?");
+    resname = (fun r -> match List.map int_of_n r with [0] -> "ok" | [1] -> "lost" | [2] -> "null" | [3; _] -> string_of_n (List.nth r 1) | _ -> "?");
+    note = no_note } in
+  { init = QsbrDefs.init ncells;
+    idle = (fun st t -> match st.th (nat_of_int t) with Idle -> true | _ -> false);
+    start = (fun st t (name, args) ->
+      let n i = n_of_string (List.nth args i) and s i = nat_of_int (int_of_string (List.nth args i)) in
+      let o = match name with
+        | "repl" -> ORepl (n 0) | "clear" -> OClear (n 0) | "read" -> ORead (n 0) | "hold" -> OHold (n 0, s 1)
+        | "drop" -> ODrop (s 0) | "deref" -> ODeref (s 0) | "enter" -> OEnter | "leave" -> OLeave | _ -> OExit in
+      match QsbrDefs.step_gen toff nslots st (Start (nat_of_int t, o)) with Some (s', _) -> Some s' | None -> None);
+    step = (fun st t _ -> QsbrDefs.step_gen toff nslots st (Step (nat_of_int t)));
+    pctag = (fun st t -> let p = st.th (nat_of_int t) in if Obj.is_int (Obj.repr p) then "i" ^ string_of_int (Obj.magic p : int) else string_of_int (Obj.tag (Obj.repr p))); nm }
+
 let () =
   let model = Sys.argv.(1) and cmd = Sys.argv.(2) and path = Sys.argv.(3) in
   let c = parse_case path in
-  let c = if model = "ebr" then ebr_with_exit c else c in
+  let c = if model = "ebr" || model = "qsbr" then ebr_with_exit c else c in
   let go inst =
     match cmd with
     | "run" ->
@@ -480,4 +547,7 @@ let () =
   | "hp" -> go (hp_inst c)
   | "vhm" -> go (vhm_inst c)
   | "vhmit" -> go (vhmit_inst c)
+  | "ram" -> go (ram_inst c)
+  | "kfb" -> go (kfb_inst c)
+  | "qsbr" -> go (qsbr_inst c)
   | _ -> prerr_endline ("unknown model " ^ model); exit 2
